@@ -13,6 +13,8 @@ def configs(ctx):
         for i, (H, W) in enumerate(szs):
             if ctx.quick and (hash((b, q, 'i')) + i) % 5 and (b, q) != ('near_sym_a', 'qshift_a'):
                 continue
+            if not ctx.quick and (hash((b, q, 'ti')) + i) % 3 and (b, q) != ('near_sym_a', 'qshift_a'):
+                continue
             long_f = q in ('qshift_c', 'qshift_d') or b == 'near_sym_b'
             J = 2 if (long_f or ctx.quick) else 3
             items.append((b, q, H, W, J, 1, 2, 2, -1, 0, 'none', False))
